@@ -504,6 +504,18 @@ func (p *partition) newSubscribeLoop(ctx context.Context, groupID, consumerID st
 				}
 				return
 			}
+			// The stop offset need not exist in the log: it may have been
+			// compacted away, removed by retention or derived from a timestamp
+			// next to a compaction gap. Going forward, the first message past
+			// it therefore ends the subscription as well, undelivered.
+			if !reverse && stopOffset != waitForNewMessages && offset > stopOffset {
+				s := status.New(codes.ResourceExhausted, "Stop offset reached")
+				select {
+				case errCh <- s:
+				case <-cancel:
+				}
+				return
+			}
 			msgValue := m.Value()
 
 			headers := m.Headers()
